@@ -178,6 +178,48 @@ def shard(name, n, n_lo, versions, shard_no, nshards, slice_mod, slice_eq):
     return acc.strip()
 
 
+def sentence_shard(version, L, shard_no, nshards, mode):
+    """grammar-derived (hence mostly compilable) programs with one spelling/layout deviation"""
+    env.setup()
+    from parso.utils import parse_version_string
+    from .. import sentences as SG
+    acc = core.Acc()
+    fnd = core.Findings(PROP)
+    acc.classify = lambda sig, case, extra: fnd.match(sig, case, RULES, extra)
+    ref = cpyref.get(version)
+    if not ref.available():
+        acc.counters['interpreter-missing/%s' % version] += 1
+        return acc.strip()
+    gen = SG.Generator(version, 'file_input')
+    texts = []
+    i = -1
+    for rule, w, tree, toks in gen.sentences(L):
+        i += 1
+        if i % nshards != shard_no or not SG.plausible(toks):
+            continue
+        if mode == 'dev':
+            texts += [SG.render(toks, **kw) for label, kw, spell in SG.deviations(toks)]
+        else:
+            texts.append(SG.render(toks))
+    texts = list(dict.fromkeys(texts))
+    vi = parse_version_string(version)
+    res = ref.call('tokenize', texts)
+    for t, r in zip(texts, res):
+        if 'err' in r:
+            acc.counters['cpython-rejects/%s' % version] += 1
+            continue
+        acc.evaluations += 1
+        acc.nontrivial += 1
+        d = compare(t, version, vi, r)
+        if d is not None:
+            sig, detail, seqs = d
+            acc.fail(sig, {'text': t, 'version': version}, detail, extra=(t, version, seqs, r))
+    ref.close()
+    if shard_no == 0 and texts:
+        acc.samples.append({'family': 'G2/' + version, 'text': texts[len(texts) // 2]})
+    return acc.strip()
+
+
 # ---- known-finding deviation rules (each re-derives parso's result from the reference under one named
 # deviation; anything that is not *exactly* that deviation stays a violation) -------------------
 def _retok(v, text):
@@ -278,12 +320,21 @@ def run(tier, seed):
     jobs = []
     for i, (a, n, n_lo, vs, sm, se) in enumerate(plan):
         jobs += [((i, a, n, n_lo, vs, s, NSH, sm, se),) for s in range(NSH)]
-    accs = [core.Acc() for _ in plan]
+    splan = []
+    for v in V:
+        splan.append((v, 8 if tier == 'quick' else 11, 'g2', 4))
+        if tier != 'quick' or v in ('3.7', '3.11', '3.13'):
+            splan.append((v, 6 if tier == 'quick' else 8, 'dev', 8 if tier == 'quick' else 16))
+    for j, (v, L, mode, nsh) in enumerate(splan):
+        jobs += [((len(plan) + j, 'S', v, L, s, nsh, mode),) for s in range(nsh)]
+    accs = [core.Acc() for _ in range(len(plan) + len(splan))]
     for i, a in core.pmap(MOD, 'shard_tagged', jobs):
         accs[i].merge(a)
     for (a, n, n_lo, vs, sm, se), acc in zip(plan, accs):
         label = '%s<=%d' % (a, n) if not n_lo else ('%s=%d' % (a, n) + ('/slice%d' % se if sm else ''))
         R.section(label, acc, alphabet=a, n=n, versions=vs, symbols=alphabets.describe(a))
+    for (v, L, mode, nsh), acc in zip(splan, accs[len(plan):]):
+        R.section('G2%s(%d)/%s' % ('dev' if mode == 'dev' else '', L, v), acc)
     R.rule = ('every distinct text over each named lexeme alphabet with <= n symbols, for each interpreter '
               '3.6..3.13 (3.14 judged by 3.13) the texts its tokenize module processes without error or '
               'ERRORTOKEN; evaluations = (text, version) pairs accepted by the reference; non-trivial = those '
@@ -294,4 +345,6 @@ def run(tier, seed):
 
 
 def shard_tagged(job):
+    if job[1] == 'S':
+        return job[0], sentence_shard(*job[2:])
     return job[0], shard(*job[1:])
